@@ -458,3 +458,65 @@ func (c *Ctx) checkMissChargedToReceiver(r *Report, rule string) {
 		r.Undecided("%s: only %d miss increments found in package object", rule, n)
 	}
 }
+
+// checkAliasKeepsNameOnlyIfCurrent: rule C14.R12.
+//
+// `h=func y(..){..}` defines y too when it is loaded. Under SaveGlobals a named function written for another
+// key therefore keeps its name only where the store was asked what that name denotes now (a lookup of the
+// environment's store by the function's name precedes the write on every path); otherwise an alias of a
+// function that was redefined or deleted brings the old definition back on load.
+func (c *Ctx) checkAliasKeepsNameOnlyIfCurrent(r *Report, rule string) {
+	entry := c.SSAFn(c.Fn("object", "Environment.SaveGlobals"))
+	envT := c.TypeNamed("object", "Environment")
+	storeIdx := fieldIndex(envT, "store")
+	fnT := c.TypeNamed("object", "Function")
+	nameIdx := fieldIndex(fnT, "Name")
+	n := 0
+	for _, fn := range c.localHelpers(entry, 2) {
+		// stores that detach the name (f.Name = nil) and lookups of the store
+		var detach, lookups []ssa.Instruction
+		eachInstr(fn, func(in ssa.Instruction) {
+			switch x := in.(type) {
+			case *ssa.Store:
+				if fa, ok := x.Addr.(*ssa.FieldAddr); ok && fa.Field == nameIdx && namedStruct(fa.X.Type()) != nil && namedStruct(fa.X.Type()).Obj() == fnT.Obj() && isNilConst(x.Val) {
+					detach = append(detach, x)
+				}
+			case *ssa.Lookup:
+				if ld, ok := x.X.(*ssa.UnOp); ok {
+					if fa, ok := ld.X.(*ssa.FieldAddr); ok && fa.Field == storeIdx {
+						if _, isCall := stripToCall(x.Index); isCall {
+							lookups = append(lookups, x)
+						}
+					}
+				}
+			}
+		})
+		if len(detach) == 0 && len(lookups) == 0 {
+			continue
+		}
+		n++
+		r.Check(len(detach) > 0 && len(lookups) > 0, rule, ssaFuncName(fn), "an alias keeps the function's name only if the name still denotes it", c.Pos(fn.Pos()),
+			"SaveGlobals writes a named function under another key without asking what the name denotes now (no lookup of the store by the function's name, or no path that drops the name): func y(a){a}; z=y; func y(a){a+1} is saved with z=func y(a){a}, and loading that line brings the old y back")
+	}
+	if n == 0 {
+		r.Fail(rule, ssaFuncName(entry), "an alias keeps the function's name only if the name still denotes it", c.Pos(entry.Pos()),
+			"SaveGlobals never looks up what a function's own name denotes: an alias of a function that was redefined or deleted since is saved with the old name, and loading it brings the old definition back")
+	}
+}
+
+// stripToCall: v is (a conversion of) a call result.
+func stripToCall(v ssa.Value) (*ssa.Call, bool) {
+	for i := 0; i < 3; i++ {
+		switch x := v.(type) {
+		case *ssa.Call:
+			return x, true
+		case *ssa.Convert:
+			v = x.X
+		case *ssa.ChangeType:
+			v = x.X
+		default:
+			return nil, false
+		}
+	}
+	return nil, false
+}
